@@ -3,6 +3,7 @@ package rpcprops
 import (
 	"fmt"
 	"github.com/TarsCloud/TarsGo/tars"
+	"net"
 	"strconv"
 	"strings"
 	"testing"
@@ -14,7 +15,7 @@ import (
 	"verif/harness/stat"
 )
 
-const C10Rule = "Raw client (reference codec) against in-process servers in generated configurations {tcp|udp, worker pool 0/1/3, handle timeout 0/300 ms, servant with/without context, in a third of the cases pass-through server filters registered (legacy single / pre+post / middleware chain)}; case = 1..24 requests pipelined over 1..3 connections through a generated chunking of the byte stream: version TARS(1)/TUP(3)/JSON(5) with arguments encoded for that version, two-way or one-way, arbitrary non-zero ids (negatives included, duplicates across connections), function = generated function | tars_ping | unknown name, iTimeout 0/large (tiny only in the queue-timeout scenario), scripted servant outcome (values, *tars.Error, plain error, sleep). Scenarios: mixed; queue-timeout (pool 1, first request sleeps 150 ms, later ones carry iTimeout <= 50 ms); handle-timeout (handle timeout 300 ms, slow handlers sleep 1200 ms). Oracle per connection: exactly one reply per two-way request and none per one-way (awaited until all handlers finished + grace), carrying the request's id, version and packet type; replies decode strictly (ResponsePacket, or RequestPacket form for TUP); ping => ret 0 and no invocation; error => code (1 for plain errors) and message (TUP: STATUS_RESULT_CODE/DESC in the status map); queue timeout => -6 and no invocation; slow handler => non-zero timeout reply; success => scripted values decoded per version; servant invoked exactly once per executed call. Non-trivial = >=2 versions and >=1 one-way and >=1 error/timeout outcome on a pipelined connection. Distinct = distinct case JSON."
+const C10Rule = "Raw client (reference codec) against in-process servers in generated configurations {tcp|udp, worker pool 0/1/3, handle timeout 0/300 ms, servant with/without context, in a third of the cases pass-through server filters registered (legacy single / pre+post / middleware chain)}; case = 1..24 requests pipelined over 1..3 connections through a generated chunking of the byte stream (in a quarter of the tcp cases the client then shuts down its sending side and keeps reading): version TARS(1)/TUP(3)/JSON(5) with arguments encoded for that version, two-way or one-way, arbitrary non-zero ids (negatives included, duplicates across connections), function = generated function | tars_ping | unknown name, iTimeout 0/large (tiny only in the queue-timeout scenario), scripted servant outcome (values, *tars.Error, plain error, sleep). Scenarios: mixed; queue-timeout (pool 1, first request sleeps 150 ms, later ones carry iTimeout <= 50 ms); handle-timeout (handle timeout 300 ms, slow handlers sleep 1200 ms). Oracle per connection: exactly one reply per two-way request and none per one-way (awaited until all handlers finished + grace), carrying the request's id, version and packet type; replies decode strictly (ResponsePacket, or RequestPacket form for TUP); ping => ret 0 and no invocation; error => code (1 for plain errors) and message (TUP: STATUS_RESULT_CODE/DESC in the status map); queue timeout => -6 and no invocation; slow handler => non-zero timeout reply; success => scripted values decoded per version; servant invoked exactly once per executed call. Non-trivial = >=2 versions and >=1 one-way and >=1 error/timeout outcome on a pipelined connection. Distinct = distinct case JSON."
 
 type C10Req struct {
 	Conn     int      `json:"conn"`
@@ -41,6 +42,10 @@ type C10Case struct {
 	// ServerFilters: pass-through server filters registered while the case runs (they must
 	// not change what the server answers)
 	ServerFilters SideFilters `json:"server_filters"`
+	// HalfClose (tcp): each client shuts down the sending side of its connection as soon as
+	// its requests are written and keeps reading (every request already sent must still be
+	// answered before the server closes the connection)
+	HalfClose bool `json:"half_close,omitempty"`
 }
 
 const (
@@ -68,6 +73,7 @@ func (e *Env) DrawC10(rt *rapid.T) C10Case {
 	if rapid.IntRange(0, 2).Draw(rt, "filters") == 0 {
 		c.ServerFilters = drawSide(rt, "server")
 	}
+	c.HalfClose = rapid.IntRange(0, 3).Draw(rt, "halfClose") == 0
 	maxReq := 24
 	switch c.Scenario {
 	case "queue-timeout":
@@ -183,8 +189,50 @@ func (e *Env) DrawC10(rt *rapid.T) C10Case {
 		}
 		c.Reqs = append(c.Reqs, r)
 	}
-	// a sleeper reused through `seen` must keep its sleep only for the first request
+	// "queued behind another connection": one worker, the first call (alone on connection 0)
+	// keeps it busy for 800 ms, everything else waits in the pool's queue on other
+	// connections whose clients half-close after writing
+	if c.Scenario == "mixed" && c.Proto == "tcp" && len(c.Reqs) >= 2 && c.Reqs[0].Kind == "call" && !c.Reqs[0].OneWay &&
+		rapid.IntRange(0, 3).Draw(rt, "queuedBehind") == 0 {
+		ok := true
+		taken := map[string]bool{}
+		for i := 1; i < len(c.Reqs); i++ {
+			conn := c.Reqs[i].Conn
+			if conn == 0 {
+				conn = 1
+			}
+			k := fmt.Sprintf("%d/%d", conn, c.Reqs[i].ReqID)
+			if taken[k] || string(keyOf(c.Reqs[i])) == string(keyOf(c.Reqs[0])) {
+				ok = false
+			}
+			taken[k] = true
+		}
+		if ok {
+			c.MaxInvoke, c.HalfClose = 1, true
+			if c.NConns < 2 {
+				c.NConns = 2
+			}
+			c.Reqs[0].Conn, c.Reqs[0].ITimeout = 0, 0
+			c.Reqs[0].Outcome.SleepMs = 800
+			for i := 1; i < len(c.Reqs); i++ {
+				if c.Reqs[i].Conn == 0 {
+					c.Reqs[i].Conn = 1
+				}
+			}
+		}
+	}
 	return c
+}
+
+// keyOf identifies the scripted outcome a request shares with equal requests.
+func keyOf(r C10Req) []byte {
+	var b []byte
+	b = append(b, r.Fn...)
+	for _, in := range r.Ins {
+		b = append(b, '|')
+		b = append(b, in...)
+	}
+	return b
 }
 
 // expected classifies what the model expects for request i.
@@ -325,6 +373,9 @@ func (e *Env) runC10Once(c C10Case) *stat.Failure {
 			if err := conns[i].Write(s, c.Chunks); err != nil {
 				return stat.Failf("connection-lost", "server closed connection %d while well-formed requests were being written: %v", i, err)
 			}
+			if tc, ok := conns[i].C.(*net.TCPConn); ok && c.HalfClose {
+				_ = tc.CloseWrite()
+			}
 		}
 	}
 	// wait for the replies, then for all handlers, then a grace period for stray packets
@@ -363,7 +414,7 @@ func (e *Env) runC10Once(c C10Case) *stat.Failure {
 		if len(errs) > 0 {
 			return stat.Failf("malformed-reply-stream", "connection %d: %s", ci, errs[0])
 		}
-		if closed {
+		if closed && !(c.HalfClose && c.Proto != "udp") { // after a half close the server closes its side once everything is answered
 			return stat.Failf("connection-lost", "connection %d was closed by the server although every request was well-formed", ci)
 		}
 		byID := map[int32][]*RawResp{}
